@@ -36,6 +36,28 @@ Theorem C08_no_S : forall l, exit_status false l = 0.
 Proof. exact no_S_zero. Qed.
 Print Assumptions C08_no_S.
 
+(* ---- -k (fail-fast) and the status request ---- *)
+(* with -k the exit status is 0 exactly when every host was reached and every command returned 0, with or without -S *)
+Theorem C08_k_zero_iff_all_succeeded : forall optS l, Forall (fun h => 0 <= hrc h <= 255) l ->
+  (exit_k optS true l = 0 <-> Forall (fun h => hrc h = 0 /\ is_failed h = false) l).
+Proof. exact k_zero_iff_all_succeeded. Qed.
+Print Assumptions C08_k_zero_iff_all_succeeded.
+
+(* the in-band status is seen exactly when it was requested, and -k alone requests it ... *)
+Theorem C08_status_seen_iff_requested : forall optS optk code, seen_inband (getstat optS optk) code = if optS || optk then code else 0.
+Proof. exact status_seen_iff_requested. Qed.
+Print Assumptions C08_status_seen_iff_requested.
+
+(* ... so a command that fails in-band under -k alone ends pdsh with 1 (Exit.run_exit is the function the check runs on the
+   outcome vectors of the scheduler-controlled runs and compares with the observed exit status) *)
+Theorem C08_k_alone_sees_inband_failure : forall code rest, 0 < code -> run_exit false true ((false, (code, 0)) :: rest) = 1.
+Proof. exact k_alone_sees_inband_failure. Qed.
+Print Assumptions C08_k_alone_sees_inband_failure.
+
+Example C08_k_nonvacuous : run_exit false true [(false, (0, 0)); (false, (3, 0))] = 1 /\ run_exit false true [(false, (0, 0)); (false, (0, 0))] = 0 /\
+  run_exit true false [(false, (3, 0)); (true, (0, 0))] = 254 /\ run_exit false false [(false, (3, 0))] = 0.
+Proof. repeat split; vm_compute; reflexivity. Qed.
+
 (* which hosts the -S loop sees as FAILED: in the timed system of the whole run (Dsh/Sys.v) a worker that has
    written its final status is in state FAILED exactly when it took a failure branch, DONE otherwise ... *)
 Theorem C08_final_status : forall (c : cfg), 1 <= f c -> forall t0 es s i w, run c (init c t0) es = Some s ->
